@@ -106,6 +106,10 @@ pub struct SimState {
     pub tasks_claimed: u64,
     /// Storage key of the task the scheduler claimed last.
     pub last_task: String,
+    /// A crash that would fall between a CA's object set being written
+    /// and the command that caused it being stored (the known finding
+    /// `object_set_ahead_of_command`) is moved to the next mutation.
+    pub veto_presave_window: bool,
 }
 
 const ONE_OFF_KEYS: usize = 48;
@@ -132,6 +136,7 @@ impl SimState {
             step_tx: None,
             tasks_claimed: 0,
             last_task: String::new(),
+            veto_presave_window: false,
         }
     }
 
@@ -238,6 +243,8 @@ fn fault_decide(
     if !FAULTS_ARMED.with(|c| c.get()) {
         return Verdict::Pass
     }
+    let veto_window = st.veto_presave_window;
+    let mut moved = false;
     let plan = &mut st.fault;
     if let Some(inst) = plan.instance {
         if inst != CUR_INSTANCE.with(|c| c.get()) {
@@ -261,7 +268,15 @@ fn fault_decide(
     match plan.mode.clone() {
         FaultMode::None => Verdict::Pass,
         FaultMode::CrashAt(n) => {
-            if k == n {
+            if k == n && veto_window && open_presave_window(&plan.sites) {
+                plan.mode = FaultMode::CrashAt(n + 1);
+                moved = true;
+            }
+            if moved {
+                st.probe("crash_moved_out_of_presave_window");
+                Verdict::Pass
+            }
+            else if k == n {
                 plan.fired_at = Some(desc.to_string());
                 st.fire("crash");
                 Verdict::Crash
@@ -293,6 +308,23 @@ fn fault_decide(
         }
         FaultMode::TornAt(_, _) => Verdict::Pass, // handled in fs_torn_write
     }
+}
+
+/// Whether the last mutation recorded (the one about to happen) comes
+/// after a CA's object set was written and before a command was stored or
+/// another task was claimed.
+fn open_presave_window(sites: &[String]) -> bool {
+    let Some((_, before)) = sites.split_last() else { return false };
+    for site in before.iter().rev() {
+        let kind = crate::cuts::classify_site(site);
+        if kind == "kv.store.ca_objects" {
+            return true
+        }
+        if kind == "kv.store.command" || kind == "kv.move_value.task" {
+            return false
+        }
+    }
+    false
 }
 
 pub struct SimHooks;
